@@ -27,6 +27,8 @@ enum Ev {
     MakeRefClone(u8),
     Verify(u8),
     Report,
+    /// report() on a clone: consumes it, verifies nothing
+    ReportClone(u8),
     NoVerifyInDrop(u8),
     ThreadDrop,
     ThreadVerify,
@@ -55,6 +57,8 @@ enum Outcome {
     CannotVerify,
     /// teardown refused: foreign thread
     WrongThread,
+    /// prediction only: clones alive *and* foreign thread - either refusal satisfies the property
+    EitherRefusal,
     CloneVerify,
     CloneNoVerify,
     /// verification failed with the recorded errors
@@ -117,6 +121,9 @@ impl LState {
             }
             out.push(Ev::Verify(k));
             out.push(Ev::NoVerifyInDrop(k));
+            if !i.original {
+                out.push(Ev::ReportClone(k));
+            }
             if i.original {
                 out.push(Ev::Report);
                 out.push(Ev::ThreadDrop);
@@ -130,7 +137,7 @@ impl LState {
     fn teardown(&self, orig: Inst, foreign_thread: bool) -> Outcome {
         let live = self.strong() - orig.helper as usize - orig.chain as usize;
         if live > 1 {
-            return Outcome::CannotVerify;
+            return if foreign_thread { Outcome::EitherRefusal } else { Outcome::CannotVerify };
         }
         if foreign_thread {
             return Outcome::WrongThread;
@@ -218,6 +225,11 @@ impl LState {
                 };
                 self.inst[0] = None;
                 out
+            }
+            Ev::ReportClone(k) => {
+                // only the original verifies: a clone's report() judges nothing
+                self.inst[k as usize] = None;
+                Outcome::ExitSuccess
             }
             Ev::NoVerifyInDrop(k) => {
                 let i = self.inst[k as usize].as_mut().unwrap();
@@ -350,6 +362,10 @@ fn apply(slots: &mut [Option<Unimock>; SLOTS], ev: Ev) -> Outcome {
             let u = slots[0].take().unwrap();
             lift(catch(move || exit_outcome(u.report())))
         }
+        Ev::ReportClone(k) => {
+            let u = slots[k as usize].take().unwrap();
+            lift(catch(move || exit_outcome(u.report())))
+        }
         Ev::NoVerifyInDrop(k) => {
             let u = slots[k as usize].take().unwrap();
             match catch(move || u.no_verify_in_drop()) {
@@ -429,7 +445,8 @@ fn run(history: &[Ev]) -> RunResult {
         let want = st.step(*ev);
         let got = apply(&mut slots, *ev);
         outcomes.push(got.clone());
-        if got != want {
+        let agree = got == want || (want == Outcome::EitherRefusal && matches!(got, Outcome::CannotVerify | Outcome::WrongThread));
+        if !agree {
             failure = Some((i, format!("event {ev:?}: expected {want:?}, observed {got:?}")));
             break;
         }
@@ -467,6 +484,7 @@ fn parse_ev(s: &str) -> Option<Ev> {
         "MakeRefClone" => Ev::MakeRefClone(arg(s)?),
         "Verify" => Ev::Verify(arg(s)?),
         "Report" => Ev::Report,
+        "ReportClone" => Ev::ReportClone(arg(s)?),
         "NoVerifyInDrop" => Ev::NoVerifyInDrop(arg(s)?),
         "ThreadDrop" => Ev::ThreadDrop,
         "ThreadVerify" => Ev::ThreadVerify,
